@@ -22,6 +22,10 @@ CHECKS = {
             "rapid-generated nested-message cases over the five flavours (MarshalTo, Marshal-only, plain gogo, plain Google v1, plain Google v2 incl. well-known types and typed nil) x positions x failing stubs x inflated lengths; byte-exact oracle prefix|key|len|csproto.Marshal(m)|suffix on an exactly-sized buffer, decode-side cursor/equality/error-propagation oracle",
             "plain gogo is represented by gogo's descriptor.DescriptorProto (registered with gogo, XXX_ methods, no Marshal); Google v1 by a hand-written pre-APIv2 style struct with XXX_ methods",
             "property-based testing (rapid), byte-exact reference construction with refwire"),
+    "C20": ("tools",
+            "rapid-generated annotated-hex texts (random case, whitespace incl. inside a byte, comments with ';' and hex digits, corrupted variants) against the inverse of the renderer; rapid-generated valid and mutated wire sequences x random expand/strings path sets through dumpProto (working-tree source compiled into the harness) and the built binary (-file, stdin pipe, stdin file), read by a tolerant reader and compared with a refwire walk",
+            "a line break inside a byte and path element 0 are outside the documented contract and not generated; field number 0 with a non-zero key is treated as ambiguous; string payloads rendered with -strings contain no line breaks",
+            "property-based testing (rapid): inverse-function oracle for the hex parser, reference-walk differential for protodump"),
 }
 
 NOT_YET = "check under construction in this session (designed in DESIGN.md section 4; not registered until it runs clean)"
